@@ -50,8 +50,8 @@ simple("C14", "exploration",
        needs_models=True)
 
 simple("C15", "model_checking",
-       "literal component values: E-tok over per-component alphabets of 14-21 tokens (k<=4 quick, every length with 7 bases + none; "
-       "k<=5 thorough, the longest length without bases), E-byte (every ASCII byte and 2/3/4-byte UTF-8 sequences at 6 positions) "
+       "literal component values: E-tok over per-component alphabets of 14-21 tokens (k<=4 quick / 5 thorough; lengths <k with 7 bases + none, "
+       "length k without bases), E-byte (every ASCII byte and 2/3/4-byte UTF-8 sequences at 6 positions) "
        "against char_class_table, IPv4-shaped hostnames (<=5/6 tokens) + 100 IPv6/IDNA shapes, 36 ports x 12 protocols, 33 dot-segment "
        "paths x 5 protocol contexts, each as init dictionary +-baseURL and through exec() on the all-wildcard pattern (url-type "
        "values); all constructor strings of <=4/5 tokens over 18 tokens x 3 base arguments; the WPT urlpatterntestdata.json vectors. "
@@ -77,4 +77,18 @@ META["C17"] = {
     "technique": "bounded exhaustive enumeration of operation histories on C handles executed in lockstep with the C++ objects they wrap (differential oracle), sanitizer build as memory oracle",
     "text": "Every url function is compared with its C++ counterpart on every (input, base) x setter history of the stated depth, directly and through ada_copy; failed-parse handles must answer null/empty/false/0; every search-params / strings / iterator operation sequence up to the stated depth is run with every handle freed exactly once under ASan+LSan; the function list is read from ada_c.h so an uncovered function is reported.",
     "note": "Oracle is the C++ API (tied to the Standard by C01/C03/C12). Bounded by the menus and depth in evidence.",
+}
+
+META["C14"] = {
+    "engine": "pattern-enum (rel build with the ADA_URL_ADA_VERIF force-REGEXP hook) + refurl/refpattern", "design_ref": "3/C14",
+    "technique": "bounded exhaustive enumeration of (pattern, options, input, base) tuples executed on the real library; every pattern is compiled twice (shortcuts on / every component forced to REGEXP) and the two compilations, test(), exec() and match() are compared with each other and with what the input denotes (ada::parse, refurl, URLPattern Standard 'process a URLPatternInit' over refurl)",
+    "text": "Every single component with the full per-component pattern menu, every pair of components with every pair of menu values and every triple over a reduced menu is constructed in four forms (dictionary, dictionary + baseURL, absolute constructor string, relative constructor string + base) with ignoreCase off and on; each constructed pattern is run on 245 inputs (URL strings with and without base, init dictionaries, error shapes). test() must equal exec().has_value() and match(); result.inputs must be the argument list; the eight input fields must be the components of the URL the input denotes (an input that denotes no URL never matches); answers, input fields and captured groups must be identical in the forced-REGEXP compilation, per pattern and per component (so an earlier failing component cannot hide a later one).",
+    "note": "One regex provider (std::regex). Dictionary inputs are judged by refpattern (validated together with ada on the WPT URLPattern vectors by C15). Four genuine deviations are registered in known_findings.d/C14.json (relative string input parsed against a blank base, second '?' strip, opaque pathname canonicaliser, second ':' strip). Port values that leave the port state's buffer empty are not in the input menu (URL Standard revisions differ).",
+}
+
+META["C15"] = {
+    "engine": "pattern-enum + refpattern (URLPattern Standard canonicalisation over refurl/refidna) + WPT urlpatterntestdata.json", "design_ref": "3/C15",
+    "technique": "bounded exhaustive enumeration of literal component values and constructor strings executed on the real constructor and on exec() with init dictionaries, in lockstep with a reference transcription of the URLPattern Standard's canonicalisation algorithms written over the reference URL parser with state override (model traces replayed on the implementation)",
+    "text": "For protocol, username, password, hostname, port, pathname (special, opaque, file, empty-protocol contexts), search and hash every literal value of the token and byte spaces is constructed as an escaped pattern (alone and with each of 7 base URLs) and also passed as an init dictionary to exec() on the all-wildcard pattern: construction/processing must fail exactly when the reference fails, the pattern string must be the escaped canonical value, the url-type input fields must be the canonical values, and the wildcard group must capture them. Constructor strings over an 18-token alphabet are parsed by the reference constructor string parser and judged the same way; the (protocol, port) product covers default-port elision. The 369 WPT entries are run (construction outcome, pattern strings, match, inputs, groups), skipping only those needing regex features std::regex lacks.",
+    "note": "Trusted: refpattern/refurl/refidna (refurl/refidna validated on WPT before each run; refpattern and ada both reproduce the WPT URLPattern vectors). Sub-spaces on which revisions of the Standards differ are excluded and counted, never judged: protocol values starting with C0 control/space, ports whose digit buffer is empty under the state override, ' in search and \\ in non-opaque pathnames (special vs non-special dummy URL). Seven root causes are registered in known_findings.d/C15.json.",
 }
